@@ -1711,6 +1711,32 @@ impl Display for Bitboard {
     }
 }
 
+/// Read-only access to the precalculated attack tables for the verification harness in /verif.
+#[cfg(inkayaku_verif)]
+pub mod verif {
+    use crate::board::precalculated::{BISHOP_MAGICS, BLACK_PAWN_NONMAGICS, KING_NONMAGICS, KNIGHT_NONMAGICS, Magics, ROOK_MAGICS, UnsafeMagicsExt, UnsafeNonmagicsExt, WHITE_PAWN_NONMAGICS};
+
+    fn magics(rook: bool) -> &'static Magics { if rook { &ROOK_MAGICS } else { &BISHOP_MAGICS } }
+
+    /// the lookup the move generator performs (unchecked indexing included)
+    pub fn slider_lookup(rook: bool, square_shift: u32, occupancy: u64) -> u64 { magics(rook).get_attacks(square_shift, occupancy) }
+    pub fn slider_mask(rook: bool, square_shift: u32) -> u64 { magics(rook)[square_shift as usize].verif_mask() }
+    pub fn slider_table_len(rook: bool, square_shift: u32) -> usize { magics(rook)[square_shift as usize].verif_table_len() }
+    pub fn slider_index(rook: bool, square_shift: u32, occupancy: u64) -> usize { magics(rook)[square_shift as usize].verif_index(occupancy) }
+
+    /// kind: 0 king, 1 knight, 2 white pawn, 3 black pawn
+    pub fn leaper_lookup(kind: u8, square_shift: u32) -> u64 {
+        unsafe {
+            match kind {
+                0 => KING_NONMAGICS.get_attacks(square_shift),
+                1 => KNIGHT_NONMAGICS.get_attacks(square_shift),
+                2 => WHITE_PAWN_NONMAGICS.get_attacks(square_shift),
+                _ => BLACK_PAWN_NONMAGICS.get_attacks(square_shift),
+            }
+        }
+    }
+}
+
 #[cfg(test)]
 mod tests {
     use std::str::FromStr;
